@@ -324,7 +324,7 @@ def run(tier, seed):
     rng = random.Random(seed)
     cases = gen_exhaustive(tier)
     run.extra_cov["bounded_exhaustive_cases"] = len(cases)
-    cases += gen_random(rng, 3000 if tier == "quick" else 300000, 5 if tier == "quick" else 8)
+    cases += gen_random(rng, 3000 if tier == "quick" else 3000000, 5 if tier == "quick" else 8)
     run.exhaustive = False
     for res in shard_map(work, split(cases, nproc() * 4), (seed,)):
         run.merge(res)
